@@ -149,6 +149,23 @@ def load_known(prop):
     return known
 
 
+SAFETY_ALL = False
+
+
+def site_diff():
+    """panic-site inventory of the current src/screen.rs against the one coq/Safe.v was written for (informational; see tools/sites.py)"""
+    try:
+        sys.path.insert(0, os.path.join(V, "tools"))
+        import sites
+        cur = sites.inventory("/repo/src/screen.rs")
+        base = [l.rstrip("\n") for l in open(os.path.join(V, "tools", "safe_sites.txt"))]
+        from collections import Counter
+        a, b = Counter(cur), Counter(base)
+        return {"count": len(cur), "added": sorted((a - b).elements())[:40], "removed": sorted((b - a).elements())[:40]}
+    except Exception as e:     # the inventory is a search hint, never a verdict
+        return {"count": 0, "added": [], "removed": [], "error": str(e)[:200]}
+
+
 def run_plan(prop, tier, seed, only=None, timeout=None):
     run = os.path.join(B, "run")
     os.makedirs(run, exist_ok=True)
@@ -162,7 +179,7 @@ def run_plan(prop, tier, seed, only=None, timeout=None):
     if only is not None:
         cmd += ["--only", str(only)]
     t = timeout or (3000 if tier == "thorough" else 900)
-    rc, _ = sh(cmd, stdout=subprocess.DEVNULL, timeout=t)
+    rc, _ = sh(cmd, stdout=subprocess.DEVNULL, timeout=t, env=dict(ENV, MT_SAFETY_ALL="1") if SAFETY_ALL else None)
     fails, hstats, samples, done = [], {}, [], False
     if os.path.exists(report):
         for line in open(report, errors="replace"):
@@ -324,6 +341,13 @@ def main():
 
     fcntl.flock(build_lock, fcntl.LOCK_UN)
 
+    sd = None
+    if prop == "C01":
+        # a changed inventory of arithmetic / unwrap / index sites is not a verdict; it widens the search (all safety probes)
+        global SAFETY_ALL
+        sd = site_diff()
+        SAFETY_ALL = bool(sd["added"] or sd["removed"])
+
     if replay:
         rp = json.load(open(replay))
         for cid in rp.get("case_ids", [])[:10] or [None]:
@@ -382,6 +406,8 @@ def main():
         "statement_failures": len(stmt), "broken_obligations": broken,
         "exhaustive": False,
     }
+    if sd is not None:
+        cov["panic_site_inventory"] = dict(sd, note="sites of src/screen.rs that can panic (tools/sites.py) vs. the inventory coq/Safe.v was written for; a difference widens the safety-probe search, it is not a verdict")
     assumptions = ["model faithfulness is checked by differential correspondence (not proved)",
                    "unicode-width / unicode-normalization / encoding_rs behave as dumped for the code points used"]
     rcode = 0
